@@ -3,8 +3,11 @@ package checks
 
 import (
 	"fmt"
+	"regexp"
 	"sort"
 	"strings"
+
+	"github.com/GuanceCloud/grok"
 
 	"github.com/GuanceCloud/platypus/pkg/parser"
 
@@ -20,6 +23,7 @@ type Prog struct {
 	Main    string
 	Point   PointSpec
 	Capture bool // compare standard output too
+	Extract bool // grok/add_pattern load-time scoping + extraction builtins in the reference
 }
 
 // PointSpec is an input point in harness terms (usable for both sides).
@@ -100,6 +104,8 @@ type Verdict struct {
 	RefErr   *ref.RErr
 }
 
+var failureNoteRe = regexp.MustCompile(`"pl_msg"=s:"time convert failed(\\.|[^"\\])*"`)
+
 const (
 	realPollCap = 400
 	refStepCap  = 6000
@@ -138,6 +144,19 @@ func runRef(p *Prog, v2 bool, bits uint) (*ref.World, *ref.Point, *ref.RErr, int
 	for name, s := range p.Scripts {
 		w.Scripts[name] = s
 	}
+	if p.Extract {
+		all := map[*rt.Node]*grok.GrokRegexp{}
+		for _, s := range p.Scripts {
+			_, compiled, redefined, _ := ref.GrokLoad(s)
+			for k, v := range compiled {
+				all[k] = v
+			}
+			if redefined {
+				w.Unspec = "redefinition of an add_pattern name"
+			}
+		}
+		ref.ExtractBuiltins(w, all)
+	}
 	ch := &mapOrderChooser{bits: bits, w: w}
 	w.MapOrder = ch.order
 	pt := p.Point.model()
@@ -162,6 +181,19 @@ func isPrefix(a, b []string) bool {
 func Differential(p *Prog) Verdict {
 	srcs := p.Sources()
 	loaded, errs := drv.Load(srcs)
+	if p.Extract {
+		refOK, _, redefined, why := ref.GrokLoad(p.Scripts[p.Main])
+		_, realBad := errs[p.Main]
+		if redefined {
+			return Verdict{OK: true, Skipped: "redefinition of an add_pattern name", Outcome: "unspec"}
+		}
+		if !refOK {
+			if realBad {
+				return Verdict{OK: true, Outcome: "load-rejected:" + why}
+			}
+			return Verdict{Key: "pattern-out-of-scope-accepted", Outcome: "accepted!", What: fmt.Sprintf("script accepted at load time although the reference rejects it (%s)\n%s", why, srcs[p.Main])}
+		}
+	}
 	if e, bad := errs[p.Main]; bad {
 		return Verdict{Key: "unexpected-load-error", LoadErr: e.Error(),
 			What: fmt.Sprintf("script rejected at load time: %v\n%s", e, srcs[p.Main]), Outcome: "loaderr"}
@@ -183,6 +215,10 @@ func Differential(p *Prog) Verdict {
 		return v
 	}
 	canceled := sig.N >= realPollCap
+	if p.Extract {
+		res.Point = failureNoteRe.ReplaceAllString(res.Point, `"pl_msg"=s:"time convert failed"`)
+		v.Real.Point = res.Point
+	}
 	realOut := strings.Join(res.Trace, ";") + "|" + res.Point + "|" + fmt.Sprint(res.Err != nil)
 	if p.Capture {
 		realOut += "|out=" + res.Stdout
